@@ -187,10 +187,16 @@ def audit_axioms(module: str, names):
     return res, text[-3000:]
 
 
-def run_lines(binary, lines, timeout=3600, env=None):
-    """Feed lines to a line-protocol binary, return output lines."""
+def run_lines(binary, lines, timeout=3600, env=None, watchdog=None):
+    """Feed lines to a line-protocol binary, return output lines. With `watchdog`
+    (seconds) the harness runs each case in a worker and reports TIMEOUT."""
     data = "\n".join(lines) + "\n"
-    rc, out, err = run([binary], input=data, timeout=timeout, env=env)
+    cmd = [binary] + (["--watchdog", str(watchdog)] if watchdog else [])
+    try:
+        rc, out, err = run(cmd, input=data, timeout=timeout, env=env)
+    except subprocess.TimeoutExpired as e:
+        out = e.stdout.decode() if isinstance(e.stdout, bytes) else (e.stdout or "")
+        rc, err = 124, "timeout"
     outl = out.split("\n")
     if outl and outl[-1] == "":
         outl.pop()
